@@ -60,7 +60,7 @@ func vkReadShard(nd *vkNode, shardID uint64) ([]string, error) {
 
 func TestVerifC18CopyShard(t *testing.T) {
 	stats := verifkit.For("C18", "TestVerifC18CopyShard",
-		"bed K: a fresh RF=1 database with one shard group; the shard on its owner A holds snapshotted files plus cache data; copy-shard A->B is requested through the meta HTTP handler while A's proxy forwards, refuses, or cuts the backup stream after n bytes; after success B's local shard content must equal A's and B must be listed as owner; after a failure the call must report an error and B must not be listed as owner. non-trivial = the backup stream was refused or cut; distinct = hash of (files, cache, fault, outcome)")
+		"bed K: a fresh RF=1 database with one shard group; the shard on its owner A holds snapshotted files plus cache data; copy-shard A->B is requested through the meta HTTP handler while A's proxy forwards, refuses, or cuts the backup stream after n bytes; after success B's local shard content must equal A's and B must be listed as owner; after a failure the call must report an error and B must not be listed as owner, and the copy is requested again without a fault: if that is acknowledged B's content must equal A's. non-trivial = the backup stream was refused or cut; distinct = hash of (files, cache, fault, outcome)")
 	defer stats.Flush()
 	cl, err := vkSharedCluster()
 	if err != nil {
@@ -171,6 +171,38 @@ func TestVerifC18CopyShard(t *testing.T) {
 			}
 		} else if dstOwner {
 			rt.Fatalf("%s copy-shard failed (%d %s) but node %d is advertised as owner of shard %d", verifkit.Sig("failed-copy-advertised-as-replica"), resp.StatusCode, strings.TrimSpace(string(body)), dst.id, shardID)
+		}
+		if !ok && fault.Kind != "up" {
+			// the operator's next step after a failed copy: request it again, now without a fault. Whatever the failed
+			// attempt left on the destination, a copy that is acknowledged must be complete.
+			resp2, err := http.PostForm("http://"+cl.metaAddr+"/copy-shard", url.Values{"src": {src.proxy.addr()}, "dest": {dst.proxy.addr()}, "shard": {fmt.Sprint(shardID)}})
+			if err != nil {
+				rt.Fatalf("harness: POST /copy-shard (retry): %v", err)
+			}
+			io.ReadAll(resp2.Body)
+			resp2.Body.Close()
+			cl.syncMeta()
+			if resp2.StatusCode/100 == 2 {
+				outcome = "failed-then-copied"
+				listed := false
+				for _, o := range cl.shardOwners(db)[shardID] {
+					if o == dst.id {
+						listed = true
+					}
+				}
+				if !listed {
+					rt.Fatalf("%s the retried copy-shard reported success but node %d is not listed as owner of shard %d", verifkit.Sig("copy-success-without-owner"), dst.id, shardID)
+				}
+				got, err := vkReadShard(dst, shardID)
+				if err != nil {
+					rt.Fatalf("%s the retried copy-shard reported success but the destination cannot read the shard: %v", verifkit.Sig("copied-shard-unreadable"), err)
+				}
+				if strings.Join(got, "\n") != strings.Join(want, "\n") {
+					rt.Fatalf("%s copy-shard failed (%s after %d bytes), was requested again without a fault and reported success, but the destination holds %d rows, the source %d", verifkit.Sig("retried-copy-acknowledged-but-incomplete"), fault.Kind, fault.Bytes, len(got), len(want))
+				}
+			} else {
+				stats.Class("observation:retry-after-failed-copy-failed", 1)
+			}
 		}
 		if fault.Kind == "up" && !ok {
 			// observation, not judged: the property demands that a copy is exact or fails cleanly, not that it
